@@ -17,6 +17,7 @@
 (*  {"k":"recv","c","fin","res","fr","dec"}  res: msg | empty | closed     *)
 (*  {"k":"end","dead","hang"}      after the final drain of every channel  *)
 (*  {"k":"codec","sub":"state|ori|id",...}   binary_message.go directly    *)
+(*  {"k":"skipped","n"}            hub cases not run after repeated hangs  *)
 (*                                                                         *)
 (* Predicates (printed as {"l","bad":[..]} when violated)                  *)
 (*  X02.NoSendOnClosed X02.NoDoubleClose X02.NoPanic X02.NoHang            *)
@@ -211,7 +212,8 @@ Recv ==
        ELSE LET want == IF c \in m.gone THEN "closed" ELSE "empty"
                 bad == (IF ln.res = "msg" THEN {"X02.Fifo"} ELSE {})
                        \cup (IF ln.res # "msg" /\ ln.res # want /\ ~m.dead THEN {"X02.Closed"} ELSE {})
-            IN /\ Reject(bad, ln.h) /\ m' = m
+            IN /\ Reject(bad, ln.h)
+               /\ m' = IF ln.res = "msg" THEN [m EXCEPT !.ql[c] = @ - 1] ELSE m      \* stay in step with the real queue
                /\ cnt' = Inc(cnt, IF ln.res = "closed" THEN {"closed_seen"} ELSE {}) /\ Summary(cnt')
     /\ l' = l + 1
 
@@ -247,7 +249,12 @@ Codec ==
           /\ Summary(cnt')
     /\ m' = m /\ l' = l + 1
 
-Next == Reset \/ Bump \/ Ev \/ Recv \/ End \/ Codec
+\* the harness stopped executing hub cases after several stuck loops (each already rejected as X02.NoHang)
+Skipped ==
+    /\ l <= Len(Trace) /\ Trace[l].k = "skipped"
+    /\ m' = m /\ cnt' = cnt /\ Summary(cnt) /\ l' = l + 1
+
+Next == Reset \/ Bump \/ Ev \/ Recv \/ End \/ Codec \/ Skipped
 Spec == Init /\ [][Next]_vars
 
 \* every line was consumed (one state per line plus the initial state)
